@@ -217,6 +217,64 @@ theorem frameDims_sorted (t : SegType) (segs ord : List Nat) (hs : SegsOK t segs
   rw [List.pairwise_map]
   exact (cells_dims_sorted t segs ord hs hnd).sublist hsub
 
+/-- a source without frame of reference has one plane: the index vectors `[segment]` (`[1]` for LABELMAP) are still strictly
+    increasing along the frames, hence pairwise different -/
+theorem frameDimsNoFoR_sorted (t : SegType) (segs : List Nat) (p : Nat) (hs : SegsOK t segs)
+    (keys : List (Option Nat × Nat)) (hsub : keys.Sublist (cells t segs [p])) :
+    (frameDimsNoFoR keys).Pairwise (fun a b => lexLt a b = true) := by
+  unfold frameDimsNoFoR
+  rw [List.pairwise_map]
+  refine List.Pairwise.sublist hsub ?_
+  unfold cells segmentsIterable
+  by_cases ht : t = .labelmap
+  · simp [ht]
+  · simp only [ht, ↓reduceIte, List.map_cons, List.map_nil]
+    rw [List.pairwise_flatMap]
+    constructor
+    · intro sg _; simp
+    · rw [List.pairwise_map]
+      have hlt : segs.Pairwise (· < ·) := by
+        rw [hs.consec ht]
+        exact List.pairwise_lt_range' 1
+      apply hlt.imp
+      intro a b hab x hx y hy
+      simp only [List.mem_singleton] at hx hy
+      subst hx hy
+      simp [dimIndexValuesNoFoR, lexLt, hab]
+
+theorem lexLt_irrefl (a : List Nat) : lexLt a a = false := by
+  induction a with
+  | nil => rfl
+  | cons x t ih => simp [lexLt, ih]
+
+theorem nodup_of_pairwise_lexLt (l : List (List Nat)) (h : l.Pairwise (fun a b => lexLt a b = true)) : l.Nodup := by
+  unfold List.Nodup
+  apply h.imp
+  intro a b hab hc
+  rw [hc, lexLt_irrefl] at hab
+  cases hab
+
+theorem planOrder_sublist (arr : Mask) (mfv : Nat) (omt : Bool) (order : List Nat) :
+    (planOrder arr mfv omt order).2.Sublist order := by
+  unfold planOrder
+  split
+  · simp only []
+    split
+    · exact List.Sublist.refl _
+    · exact List.filter_sublist
+  · exact List.Sublist.refl _
+
+theorem cells_sublist_single (t : SegType) (segs : List Nat) (ord : List Nat) (p : Nat) (h : ord.Sublist [p]) :
+    (cells t segs ord).Sublist (cells t segs [p]) := by
+  rcases List.sublist_singleton.mp h with rfl | rfl
+  · have : cells t segs [] = [] := by
+      unfold cells
+      induction segmentsIterable t segs with
+      | nil => rfl
+      | cons a l ih => simpa using ih
+    rw [this]; exact List.nil_sublist _
+  · exact List.Sublist.refl _
+
 /-! ## frame by frame -/
 
 /-- **every stored frame, read on its own** (`get_stored_frame(i + 1)`, row `i` of `pixel_array`), is the cell of the
